@@ -953,23 +953,28 @@ Definition pguard (n : nat) : parser guard := fun ts =>
   | _ => None
   end.
 
-(* fsm-arm := pattern, guard+ | pattern, transition+ *)
+Definition t_nl (t : tok) : bool := match t with TNl => true | _ => false end.
+
+(* fsm-arm := pattern, guard+ | pattern, transition+       (a single guard is followed by one more line break) *)
 Definition parm (n : nat) : parser arm := fun ts =>
   match ts with
   | TSp :: TSp :: r =>
       match pfpat n r with
-      | Some (p, TNl :: r1) =>
-          match plist1 n sep_nl (pguard n) r1 with
-          | Some ([g], TNl :: r2) => Some (AGuard p [g], r2)
-          | Some ([g], _) => None
-          | Some (gs, r2) => Some (AGuard p gs, r2)
-          | None => None
-          end
       | Some (p, r1) =>
-          match plist1 n sep_none (ptrans n) r1 with
-          | Some (tr, r2) => Some (ATrans p tr, r2)
-          | None => None
-          end
+          if hd_is t_nl r1 then
+            match plist1 n sep_nl (pguard n) (List.tl r1) with
+            | Some (gs, r2) =>
+                match gs with
+                | [_] => match r2 with TNl :: r3 => Some (AGuard p gs, r3) | _ => None end
+                | _ => Some (AGuard p gs, r2)
+                end
+            | None => None
+            end
+          else
+            match plist1 n sep_none (ptrans n) r1 with
+            | Some (tr, r2) => Some (ATrans p tr, r2)
+            | None => None
+            end
       | None => None
       end
   | _ => None
@@ -1116,7 +1121,7 @@ Definition is_formula (e : ex) : bool := is_fac e || is_term e.
 Definition is_expr (e : ex) : bool := is_formula e || is_range e.
 Definition is_neg (e : ex) : bool := match e with ENeg _ => true | _ => false end.
 (* expression := fsm-pipe | range | formula: the positions of the grammar that take an `expression` (matrix / set / tuple
-   elements, record / map values, call arguments, tuple-struct values, statement right-hand sides) admit an instance *)
+   elements, record / map values, call arguments, tuple-struct values, statement right-hand sides) take an instance *)
 Definition is_fsm (e : ex) : bool := match e with EFsm _ _ => true | _ => false end.
 Definition is_exprF (e : ex) : bool := is_expr e || is_fsm e.
 
@@ -1233,6 +1238,7 @@ Definition head_ok (ts : list tok) : bool :=
   match ts with
   | [] => false
   | TSym LP :: _ | TSym LB :: _ | TSym (SOp OMul) :: _ | TSym Hash :: _ => false
+  | [TSym Colon] => false
   | TSym Colon :: TId _ :: TSym LP :: _ => false
   | _ => true
   end.
